@@ -178,3 +178,57 @@ Proof.
   intros Hd Hok st g e1 e2 He1 He2 Heq Hc. pose proof (trace_Inv d n0 ops Hok) as I. fold st g in I.
   apply (two_objects rho phi d st g e1 e2 Hd I He1 He2 Hc). rewrite Heq. apply veq_refl.
 Qed.
+
+(** ** Solve time with several partitions: what reaches the wrapper *)
+
+Lemma constraints_unused st : bp_blocks st = [] -> partition_constraints st = [].
+Proof. intros H. unfold partition_constraints. rewrite H. reflexivity. Qed.
+
+Fixpoint nsum (l : list nat) : nat := match l with [] => 0 | x :: l' => x + nsum l' end.
+
+(** The sent list is the concatenation over ALL registered partitions, in registry order: a
+    constraint is sent iff it is a cross-block relation of some partition; no partition is skipped
+    whatever the other partitions look like; one-block and never-used partitions are neutral. *)
+Theorem solve_sent_exact parts :
+  (forall c, In c (sent_partition_constraints parts)
+             <-> exists st, In st parts /\ In c (partition_constraints st))
+  /\ (forall l1 st l2, sent_partition_constraints (l1 ++ st :: l2)
+        = sent_partition_constraints l1 ++ partition_constraints st ++ sent_partition_constraints l2)
+  /\ (forall l1 st l2, bp_d st = 1%nat \/ bp_blocks st = [] ->
+        sent_partition_constraints (l1 ++ st :: l2) = sent_partition_constraints (l1 ++ l2))
+  /\ (2 * length (sent_partition_constraints parts)
+      = nsum (map (fun st => length (bp_blocks st) * length (bp_blocks st) * (bp_d st * (bp_d st - 1))) parts))%nat.
+Proof.
+  unfold sent_partition_constraints. split; [|split; [|split]].
+  - intros c. apply in_flat_map.
+  - intros l1 st l2. rewrite flat_map_app. reflexivity.
+  - intros l1 st l2 H. rewrite !flat_map_app. cbn [flat_map].
+    destruct H as [H|H]; [rewrite (constraints_one _ H)|rewrite (constraints_unused _ H)]; reflexivity.
+  - induction parts as [|st parts IH]; [reflexivity|]. cbn [flat_map map nsum]. rewrite app_length.
+    pose proof (constraints_exact_list st) as (_ & _ & _ & L & _). cbv zeta in L. lia.
+Qed.
+
+(** one partition of a PEP: its number of blocks, Point.counter when it was created, its history *)
+Definition hist : Type := (nat * nat * list op)%type.
+Definition h_d (h : hist) : nat := fst (fst h).
+Definition h_ok (h : hist) : Prop := ok (init_partition (h_d h) (snd (fst h))) (snd h).
+Definition h_state (h : hist) : pstate := fst (trace (init_partition (h_d h) (snd (fst h))) [] (snd h)).
+Definition h_ghost (h : hist) : list entry := snd (trace (init_partition (h_d h) (snd (fst h))) [] (snd h)).
+
+(** Meaning: the constraints received by the wrapper hold under a valuation iff, in EVERY partition
+    of the PEP, all pairs of different blocks of all points it decomposed are orthogonal. *)
+Theorem solve_sent_meaning (E : ips) (rho : nat -> E) (phi : nat -> R) (hs : list hist) :
+  (forall h, In h hs -> h_ok h) ->
+  ((forall c, In c (sent_partition_constraints (map h_state hs)) -> holds rho phi c)
+   <-> forall h, In h hs -> all_orthogonal rho (h_d h) (h_ghost h)).
+Proof.
+  intros Hok. split.
+  - intros H h Hh. destruct h as [[d n0] ops].
+    apply (constraints_iff rho phi d (h_state (d, n0, ops)) (h_ghost (d, n0, ops))).
+    + apply trace_Inv, (Hok _ Hh).
+    + intros c Hc. apply H. apply in_flat_map. exists (h_state (d, n0, ops)). split; [apply in_map, Hh|exact Hc].
+  - intros H c Hc. apply in_flat_map in Hc as [st [Hst Hc]]. apply in_map_iff in Hst as [h [<- Hh]].
+    destruct h as [[d n0] ops].
+    apply (constraints_iff rho phi d (h_state (d, n0, ops)) (h_ghost (d, n0, ops))); [|apply (H _ Hh)|exact Hc].
+    apply trace_Inv, (Hok _ Hh).
+Qed.
